@@ -418,6 +418,13 @@ def run(F, rep, tier):
             else:
                 rep.viol('R14.4', evaluate + '|InternalFrame|truncate', 'the internal stack is not truncated on the error path of an internal frame', eb.loc(min(regn)) if regn else None)
 
+    # a Break that leaves a fold builtin is neither a value nor an error try/catch receives (same facts as C05 R5.4)
+    from .c05 import fold_break_sites
+    for fn, okf, loc_ in fold_break_sites(F):
+        if okf:
+            rep.ok('R14.4', '%s translates the fold body\'s Break' % fn, 'no control-flow signal escapes the builtin')
+        else:
+            rep.viol('R14.4', '%s|fold-break-escapes' % fn, '%s lets the Break(0, value) with which its fold body ends early escape to the caller: evaluation ends with `break`, which is neither a value nor an error that try/catch receives' % fn, loc_)
     # ---------------- R14.11
     rep.rule('R14.11', 'allocations sized by a user-supplied number: every with_capacity / reserve / reserve_exact / vec![x; n] (from_elem) / resize / '
              'str::repeat / slice::repeat in the closure whose size argument is not a constant and not derived from the length of an existing '
